@@ -15,14 +15,14 @@ META = {
 PROFILE = {'n_rps': 2, 'setup_ops': 18, 'existing_consumer_bias': 0.7, 'empty_bias': 0.3,
            'setup_weights': {'rp_delete': 0, 'alloc_put': 30, 'alloc_delete': 1, 'rc_rename': 0, 'rc_delete': 0, 'trait_delete': 0,
                              'rp_traits_set': 0, 'aggs_set': 0, 'rp_update': 0},
-           'race_kinds': {'alloc_put': 8, 'alloc_post': 3, 'reshape': 1},
-           'p_three': 0.05}
+           'race_kinds': {'alloc_put': 8, 'alloc_post': 4, 'reshape': 1},
+           'p_three': 0.05, 'p_move': 0.6}
 
 
 def run(chk):
     if not getattr(chk, 'no_lean', False):
         chk.lean_stage(META['lean_module'], exe=True)
-    n = 80 if chk.tier == 'quick' else 3000
+    n = 112 if chk.tier == 'quick' else 3000
     conc.run_races(chk, ['C06'], n, 120 if chk.tier == 'quick' else 3000, PROFILE)
     chk.cov['rule'] = ('start states built through the API; 2 (5%: 3) PUT/POST allocations or reshaper requests touching a common consumer, '
                        'new or existing, generations null/current/stale, at microversions >= 1.28 mostly; every canonical interleaving of '
